@@ -380,6 +380,26 @@ def staleness_programs():
     return out
 
 
+def near_uri_programs():
+    """fixed family: two namespace URIs that differ only at the very end (a trailing '#', '/', a final letter, letter
+    case) under one prefix and under two, in both orders, in a document and in a bundle: they are different namespaces —
+    the second one clashes, is renamed, and every name keeps its own URI"""
+    base = "http://example.org/ns"
+    pairs = [(base + "#", base), (base, base + "#"), (base + "/", base), (base, base + "/"), (base, base + "s"), (base, "http://example.org/NS"),
+             (base + "#", base + "/")]
+    out = []
+    for u1, u2 in pairs:
+        for t in ("d", "0"):
+            for same_prefix in (True, False):
+                p2 = "ex" if same_prefix else "other"
+                out.append([["NewBundle"], ["AddNs", t, "ex", u1], ["Resolve", t, ["Q", p2, u2, "item"]], ["Resolve", t, ["S", "ex:item"]],
+                            ["AddNs", t, p2, u2], ["Resolve", t, ["Q", "ex", u1, "item"]], ["Resolve", t, ["Q", p2, u2, "item"]],
+                            ["Resolve", t, ["S", u1 + "item"]], ["Resolve", t, ["S", u2 + "item"]], ["Resolve", t, ["I", u2 + "item"]]])
+                out.append([["NewBundle"], ["AddNs", t, "a", u1], ["AddNs", t, "a", u2], ["Resolve", t, ["S", "a:x"]],
+                            ["Resolve", t, ["Q", "a", u2, "x"]], ["Resolve", t, ["Q", "a", u1, "x"]]])
+    return out
+
+
 def run(tier, seed, log, model_runs=True, enlarged=False):
     rng = random.Random(seed)
     n_prog = 300 if tier == "quick" else 4000
@@ -404,7 +424,9 @@ def run(tier, seed, log, model_runs=True, enlarged=False):
             progs.append(gen_program(rng, n_ops, disciplined=False, avoid_findings=False))
     stale = staleness_programs()
     progs.extend(stale)
-    log("staleness family: %d programs" % len(stale))
+    near = near_uri_programs()
+    progs.extend(near)
+    log("staleness family: %d programs; near-equal URIs: %d programs" % (len(stale), len(near)))
     exhaustive = False
     if tier == "thorough":
         ex = list(exhaustive_programs(3 if not enlarged else 4))
